@@ -50,7 +50,7 @@ static void os_write(int fd, const char *p, size_t n, size_t rec_off){
 /* ---- descriptors ---- */
 int verif_open3(const char *path, int flags, unsigned mode){
   (void)mode; (void)strlen(path);
-  if (may_fail()) { errno = nondet_bool() ? EACCES : ENOSPC; ev(EV_OPEN, -1, path, 0, flags, 0); return -1; }
+  if (may_fail()) { errno = nondet_int(); __CPROVER_assume(errno > 0 && errno < 134); ev(EV_OPEN, -1, path, 0, flags, 0); return -1; }   /* any errno: ENOENT, EEXIST, EACCES, ENOSPC ... */
   int fd = -1; for (int i = 2; i < NS; i++) if (!vs[i].in_use) { vs[i].in_use = 1; vs[i].std = 0; vs[i].append = (flags & O_APPEND) != 0; vs[i].nonblock = (flags & O_NONBLOCK) != 0; vs[i].failed = 0; vs[i].pending = 0; vs[i].cap = 0; fd = vs[i].fd; break; }
   __CPROVER_assert(fd != -1, "model: at most three files open at once");
   verif_fd_open++; ev(EV_OPEN, fd, path, 0, flags, 1);
